@@ -273,7 +273,8 @@ def main(argv):
 
 
 def _write_evidence(prop, ev):
-    path = os.path.join(VERIF_DIR, 'evidence', f'{prop}.json')
+    sub = 'evidence' if os.path.realpath(REPO) == '/repo' else '.scratch-evidence'
+    path = os.path.join(VERIF_DIR, sub, f'{prop}.json')
     os.makedirs(os.path.dirname(path), exist_ok=True)
     try:
         import jsonschema
